@@ -149,6 +149,11 @@ def gen():
     if al.count("dim_tlo=m->offset;") + al.count("lo=m->offset;") < 2 or "(m->offset/" in al:
         raise TranslateError("setAlignment(): block start is no longer the byte offset")
 
+    swap_stmt = "reservationSet(reservations.begin(),reservations.end()).swap(reservations);"
+    nswap = (swap_stmt + "deletebuffer;buffer=newBuffer;" in rz) + (swap_stmt + "deletebuffer;buffer=newBuffer;" in al)
+    if nswap not in (0, 2) or rz.count(swap_stmt) + al.count(swap_stmt) != nswap:
+        raise TranslateError("resize()/setAlignment() rebuild the reservation set inconsistently")
+
     mal = squeeze(body(sdev, "modeMemory_t* device::malloc"))
     host = which(mal, {
         "counted": ['if(src&&props.get("use_host_pointer",false)){buf->ptr=(char*)const_cast<void*>(src);}else{buf->malloc(bytes);}'],
@@ -175,7 +180,8 @@ def gen():
            "    resizeBlocksAligned := %s," % b(blk == "aligned"),
            "    sweepAccumulatesGaps := %s," % b(sa == "gaps"),
            "    reserveComparesAligned := %s," % b(cmp_v == "aligned"),
-           "    hostPtrCounted := %s }" % b(host == "counted"),
+           "    hostPtrCounted := %s," % b(host == "counted"),
+           "    setRebuiltAfterPacking := %s }" % b(nswap == 2),
            "", "end Occa.Gen", ""]
     h = write_if_changed(os.path.join(VERIF, "lean/OccaGen/PoolConsts.lean"), "\n".join(out))
     return {"PoolConsts": h}
